@@ -193,8 +193,7 @@ def step (line : String) : String :=
           match modelObs c with
           | none => s!"{id} bad-case model could not run (missing behaviour or fuel)"
           | some m =>
-            let d := if dK02b c.script c.target then "K02b" else "-"
-            verdict id (m == o) (specOK c o) d (showObs m)
+            verdict id (m == o) (specOK c o) "-" (showObs m)
     | _, _ => s!"{id} bad-case"
 
 end Rivaas.DriverC02
